@@ -208,6 +208,12 @@ func (s *sut) enabled() []lop {
 	}
 	if m.pendSnap == 0 && m.term <= 3 && m.term != m.ledTerm {
 		for _, i := range []uint64{m.committed + 1, last + 1} {
+			// a snapshot of the current term's leader is a prefix of that leader's log: if this node
+			// already follows that leader (whose log equals the local one up to folD), the snapshot
+			// cannot carry the leader's term at an index at or below folD
+			if m.folTerm == m.term && i <= m.folD {
+				continue
+			}
 			if t, ok := m.log.term(i); !ok || t != m.term {
 				out = append(out, lop{kind: "restore", a: i, b: m.term})
 			}
